@@ -171,6 +171,12 @@ def gen_case(rng, index, tier):
             args.append(arg2)
             if rng.random() < 0.5:
                 args.reverse()
+    for a0 in list(args):
+        # ... then the symlink through which an argument was reached: it lives
+        # on ITS volume, not on that of the directory it points to
+        if a0.get('via_link') and rng.random() < 0.6 and \
+                not any(x.get('rel') == a0['via_link'] for x in args):
+            args.insert(args.index(a0) + 1, c01.add_link_companion(L, rng, a0))
     opts, stdin, env_extra, optclass = c01.pick_options(
         L, rng, workdirs, args, index, allowed=set(OPTS))
     c01.add_stale(L, rng, args, index, p=0.25)
